@@ -1,5 +1,6 @@
 import FlVerif.Base.SExp
 import FlVerif.Op.Cascade
+import FlVerif.Op.Settings
 
 /-! Driver commands for the state-machine models (C12 cascade, …). -/
 
@@ -26,6 +27,29 @@ def cascade : List SExp → Option SExp
       pure (list outs.reverse)
   | _ => none
 
-def state (l : List SExp) : Option SExp := cascade l
+/-- program syntax: `(done) | (raise) | (probe rest) | (assign k v rest) | (ctx ((k v|none) …) body rest)` -/
+partial def settingsProg : SExp → Option Op.Settings.Prog
+  | list [atom "done"] => some .done
+  | list [atom "raise"] => some .raise
+  | list [atom "probe", r] => do pure (.probe (← settingsProg r))
+  | list [atom "assign", k, v, r] => do pure (.assign (← k.asNat) (← v.asNat) (← settingsProg r))
+  | list [atom "ctx", list kws, b, r] => do
+      let kws ← kws.mapM (fun e => match e with
+        | list [k, atom "none"] => do pure ((← k.asNat), (none : Option Nat))
+        | list [k, v] => do pure ((← k.asNat), some (← v.asNat))
+        | _ => none)
+      pure (.ctx kws (← settingsProg b) (← settingsProg r))
+  | _ => none
+
+/-- `(settings prog)` → `(exc (final…) (probe…) …)` starting from the all-zero store -/
+def settingsCmd : List SExp → Option SExp
+  | [atom "settings", p] => do
+      let p ← settingsProg p
+      let r := Op.Settings.run p (fun _ => 0)
+      let snap (l : List Nat) : SExp := list (l.map ofNat)
+      pure (list (ofBool r.exc :: snap (Op.Settings.snapshot r.s) :: r.log.map snap))
+  | _ => none
+
+def state (l : List SExp) : Option SExp := (cascade l).orElse (fun _ => settingsCmd l)
 
 end Drv
